@@ -155,18 +155,22 @@ def plan(ctx):
     else:
         for a in SINGLE:
             heavy = a.startswith(("timed_window", "partition", "delay", "rate_limit"))
+            masync = a.startswith("map_async")
             for kind in KINDS:
-                jobs.append((("chain", a, kind, "await", 4 if not heavy else 3, 1), 1 if heavy else 2))
+                jobs.append((("chain", a, kind, "await", 4 if not heavy else 3, 1), 1))
+                jobs.append((("chain", a, kind, "await", 3, 1), 1 if (heavy or masync) else 2))
                 jobs.append((("chain", a, kind, "burst", 3, 1), 1))
-            jobs.append((("chain", a, "native", "await", 3, 2), 1 if not heavy else 0))
+            jobs.append((("chain", a, "sync", "burst", 4, 1), 1 if not heavy else 0))
+            jobs.append((("chain", a, "native", "await", 2, 2), 1 if not heavy else 0))
         for a in SINGLE:
             for b in SINGLE:
                 jobs.append((("chain", a + "," + b, "native", "await", 3, 1), 0))
         for kind in KINDS:
             for join in ("zip:1", "zip:2", "union"):
                 for l, r in (("", ""), ("buffer:1", ""), ("map_async:1", "buffer:2"), ("buffer:1", "map_async:2")):
-                    jobs.append((("join", join, l, r, kind, "await", 3), 1))
-                    jobs.append((("join", join, l, r, kind, "burst", 2), 1))
+                    hard = "map_async" in (l + r)
+                    jobs.append((("join", join, l, r, kind, "await", 3 if not hard else 2), 1 if not hard else 0))
+                    jobs.append((("join", join, l, r, kind, "burst", 2), 1 if not hard else 0))
     return jobs
 
 
